@@ -462,3 +462,21 @@ def step (s : State) : Op → State × Res × List Ev
       | some (s', ev) => (s', .none, ev)
 
 end Swarm
+
+namespace Swarm
+
+/-- operations extended by the `race` transition (kept separate from `Op` so that models composed
+with `Op` are unaffected) -/
+inductive XOp where
+  | base (o : Op)
+  | race (k p : Nat) (deny : Bool) (dp : Nat) (order aborts : List Nat)
+  deriving Repr, Inhabited
+
+def xstep (s : State) : XOp → State × Res × List Ev
+  | .base o => step s o
+  | .race k p d dp o a =>
+    match race s k p d dp o a with
+    | some (s', ev) => (s', .okErr (s.isConnected dp), ev)
+    | none => (s, .badOp, [])
+
+end Swarm
